@@ -10,7 +10,7 @@ pcr  <fwd> <rev> <ef> <er> <min> <max> <ext> <full> <circ> <tpl>[,<tpl>...]
           — every field but the coordinates and the nucleotides is READ FROM THE ANNOTATION MAP of the amplicon (`annotate`);
           `others` = the remaining keys, sorted, `hexname=i<int>` / `hexname=s<hex>` joined by ";" ("-" = none).
           Convention: template number k of a `pcr` line carries the annotations `tplAnnot k`, the template of a `cli` line
-          `tplAnnot 1`, piece number k of a `frag` line `tplAnnot k` (the pieces are given to `PCRSlice` as new templates)
+          `tplAnnot 1`, the template of a `frag` line `tplAnnot 1` (its pieces inherit them; the marks of `MarkFragmentEnds` are removed from the amplicons)
 frag <fwd> <rev> <e> <min> <max> <ext> <full> <minsize> <length> <overlap> <tpl>
        -> <fragment coordinates a..b,… | whole> <amplicons per fragment as above>
 cli  <fwd> <rev> <e> <min> <max> <delta> <full> [<circ> <frag>] <tpl>      (default: circ = 0, frag = 1)
@@ -131,15 +131,12 @@ def run (line : String) : String :=
         let t := tpl.map lowerByte
         match mkPrimers fw rv e e, fragments minsize length overlap t.length with
         | some P, some frs =>
-          let pieces : List Bytes := match frs with
-            | none => [t]
-            | some l => l.map fun (ab : Nat × Nat) => (t.drop ab.1).take (ab.2 - ab.1)
           let names := match frs with
             | none => "whole"
             | some l => ",".intercalate (l.map fun (ab : Nat × Nat) => s!"{ab.1 + 1}..{ab.2}")
-          match pcrSlice P o pieces with
+          match pcrCuts P o t (cutsOf t.length frs) with
           | .error b => showBad b
-          | .ok per => s!"{names} {showPer fw rv per}"
+          | .ok per => s!"{names} {"|".intercalate (per.map fun cl => showList fw rv (tplAnnot 1) cl.2)}"
         | _, _ => "bad-op"
     | _, _, _, _, _, _, _, _, _, _, _ => "bad-op"
   | ["cli", fw, rv, e, mn, mx, delta, full, tpl] => runCli fw rv e mn mx delta full "0" "1" tpl
